@@ -174,8 +174,90 @@ def _peek_assign(stmt):
     return None
 
 
-def _is_buffer_wrap(stmt):
-    """if not hasattr(fp, "peek"): fp = io.BufferedReader(fp)"""
+def _always_returns(stmts):
+    return bool(stmts) and (isinstance(stmts[-1], ast.Return) or (
+        isinstance(stmts[-1], ast.If) and stmts[-1].orelse and _always_returns(stmts[-1].body) and _always_returns(stmts[-1].orelse)))
+
+
+def _normalise_returns(stmts, target="fp"):
+    """Early returns -> nesting: `if c: A; return a` followed by `B; return b` becomes `if c: A; fp = a  else: B; fp = b`."""
+    out = []
+    for i, st in enumerate(stmts):
+        if isinstance(st, ast.Return):
+            val = st.value if st.value is not None else ast.Constant(None)
+            a = ast.Assign(targets=[ast.Name(target, ast.Store())], value=val)
+            ast.copy_location(a, st)
+            a.lineno = getattr(st, "lineno", 1)
+            return out + [a]
+        if isinstance(st, ast.If) and not st.orelse and _always_returns(st.body):
+            n = ast.If(test=st.test, body=_normalise_returns(st.body, target), orelse=_normalise_returns(stmts[i + 1:], target))
+            ast.copy_location(n, st)
+            return out + [n]
+        if isinstance(st, ast.If) and st.orelse and (_always_returns(st.body) or _always_returns(st.orelse)):
+            n = ast.If(test=st.test, body=_normalise_returns(st.body + ([] if _always_returns(st.body) else stmts[i + 1:]), target),
+                       orelse=_normalise_returns(st.orelse + ([] if _always_returns(st.orelse) else stmts[i + 1:]), target))
+            ast.copy_location(n, st)
+            return out + [n]
+        out.append(st)
+    return out
+
+
+class _Rename(ast.NodeTransformer):
+    def __init__(self, mapping):
+        self.mapping = mapping
+
+    def visit_Name(self, node):
+        if node.id in self.mapping:
+            return ast.copy_location(ast.Name(self.mapping[node.id], node.ctx), node)
+        return node
+
+
+def _splice_helper(mod, call, target="fp"):
+    """`helper(a, b, c)` where helper is a plain module-level function of the same module: its body with the parameters renamed
+    to the caller's argument names, docstring dropped, early returns normalised into assignments to `target`.  None otherwise."""
+    if not (isinstance(call, ast.Call) and _is_name(call.func) and not call.keywords and all(_is_name(a) for a in call.args)):
+        return None
+    fn = vars(mod).get(call.func.id)
+    if not (inspect.isfunction(fn) and fn.__module__ == mod.__name__):
+        return None
+    node, body = _fn_ast(fn)
+    params = [a.arg for a in node.args.args]
+    if len(params) != len(call.args) or node.args.vararg or node.args.kwarg or node.args.kwonlyargs:
+        return None
+    mapping = {p: a.id for p, a in zip(params, call.args)}
+    body = [_Rename(mapping).visit(st) for st in body]
+    return _normalise_returns(body, target)
+
+
+def _is_trivial_assign(stmts, target="fp", values=("fp", None)):
+    """[fp = fp] or [fp = None]"""
+    if len(stmts) != 1 or not (isinstance(stmts[0], ast.Assign) and _is_name(stmts[0].targets[0], target)):
+        return False
+    v = stmts[0].value
+    return (_is_name(v) and v.id in values) or (isinstance(v, ast.Constant) and v.value is None and None in values)
+
+
+def _is_buffer_wrap(stmt, mod=None):
+    """if not hasattr(fp, "peek"): fp = io.BufferedReader(fp)   |   fp = <private helper doing just that>(fp)"""
+    if mod is not None and isinstance(stmt, ast.Assign) and len(stmt.targets) == 1 and _is_name(stmt.targets[0], "fp"):
+        sp = _splice_helper(mod, stmt.value)
+        if sp is not None and len(sp) == 1 and isinstance(sp[0], ast.If):
+            t, a, b = sp[0].test, sp[0].body, sp[0].orelse
+            has = (isinstance(t, ast.Call) and _is_name(t.func, "hasattr") and len(t.args) == 2 and _is_name(t.args[0], "fp")
+                   and isinstance(t.args[1], ast.Constant) and t.args[1].value == "peek")
+            nhas = isinstance(t, ast.UnaryOp) and isinstance(t.op, ast.Not) and isinstance(t.operand, ast.Call) \
+                and _is_name(t.operand.func, "hasattr") and len(t.operand.args) == 2 and _is_name(t.operand.args[0], "fp") \
+                and isinstance(t.operand.args[1], ast.Constant) and t.operand.args[1].value == "peek"
+            if nhas:
+                a, b = b, a
+
+            def wraps(ss):
+                return len(ss) == 1 and isinstance(ss[0], ast.Assign) and isinstance(ss[0].value, ast.Call) \
+                    and isinstance(ss[0].value.func, ast.Attribute) and ss[0].value.func.attr == "BufferedReader" \
+                    and len(ss[0].value.args) == 1 and _is_name(ss[0].value.args[0], "fp")
+            if (has or nhas) and _is_trivial_assign(a, values=("fp",)) and wraps(b):
+                return True
+        return False
     if not (isinstance(stmt, ast.If) and not stmt.orelse and len(stmt.body) == 1):
         return False
     t = stmt.test
@@ -211,7 +293,7 @@ def open_stream_facts(mod):
             and isinstance(s.test.left, ast.Constant) and s.test.left.value == "w" and _is_name(s.test.comparators[0], "mode"):
         passthrough = True
         i += 1
-    if _is_buffer_wrap(body[i]):
+    if _is_buffer_wrap(body[i], mod):
         i += 1
     pa = _peek_assign(body[i])
     if not pa:
@@ -220,13 +302,24 @@ def open_stream_facts(mod):
     peeklen = _const(mod, peekexpr, fn)
     i += 1
     rest = body[i:]
+    # `return <private helper>(fp, <peeked>, mode)`: follow the helper (one level), early returns normalised
+    if len(rest) == 1 and isinstance(rest[0], ast.Return):
+        sp = _splice_helper(mod, rest[0].value)
+        if sp is not None:
+            rest = sp + [ast.Return(value=ast.Name("fp", ast.Load()))]
+    else:
+        rest = _normalise_returns(rest) if not _is_return_name(rest[-1] if rest else None, "fp") else rest
     if not rest or not _is_return_name(rest[-1], "fp"):
         raise Unsupported("open_stream does not end with `return fp`")
     for s in rest[:-1]:
+        if _is_trivial_assign([s], values=("fp",)):
+            continue
         if not isinstance(s, ast.If):
             raise Unsupported("%s: unexpected statement %s" % (_where(fn, s), type(s).__name__))
         for test, stmts in _flatten_chain(s):
             if test is None:
+                if _is_trivial_assign(stmts, values=("fp",)):
+                    continue
                 raise Unsupported("%s: final else in the sniffing chain" % _where(fn, s))
             flag, core = _split_guard(test, fn)
             pt = _prefix_test(mod, core, peekvar, fn)
@@ -371,6 +464,13 @@ def open_path_facts(mod):
             # clobber guard: if ...: raise
             if not s.orelse and len(s.body) == 1 and isinstance(s.body[0], ast.Raise) and chain is None:
                 continue
+            # if path: fp = <private helper>(path, mode, out)   -> follow the helper (one level)
+            if _is_name(t, "path") and not s.orelse and len(s.body) == 1 and isinstance(s.body[0], ast.Assign) and chain is None \
+                    and _is_name(s.body[0].targets[0], "fp"):
+                sp = _splice_helper(mod, s.body[0].value)
+                if sp is not None and len(sp) == 1 and isinstance(sp[0], ast.If):
+                    s = ast.If(test=t, body=sp, orelse=[])
+                    ast.copy_location(s, sp[0])
             # if path: <chain>
             if _is_name(t, "path") and not s.orelse and len(s.body) == 1 and isinstance(s.body[0], ast.If) and chain is None:
                 s = s.body[0]
@@ -381,6 +481,8 @@ def open_path_facts(mod):
                 chain = []
                 for test, stmts in _flatten_chain(s):
                     if test is None:
+                        if _is_trivial_assign(stmts, values=(None,)):      # helper's `return None` for unknown extensions
+                            continue
                         raise Unsupported("%s: final else in the extension chain" % _where(fn, s))
                     chain.append(_ext_branch(test, stmts, outvar, fn, mod))
                 continue
@@ -436,7 +538,7 @@ def find_adapter_facts(mod):
     fn = mod.find_adapter_for_stream
     node, body = _fn_ast(fn)
     i = 0
-    if _is_buffer_wrap(body[i]):
+    if _is_buffer_wrap(body[i], mod):
         i += 1
     pa = _peek_assign(body[i])
     if not pa:
@@ -607,6 +709,576 @@ def import_block_facts(mod):
     return deps
 
 
+# ================================================================================================
+# OBSERVED behaviour (primary source of the facts).  The real functions are run on purpose-built probes; the tables the
+# model needs are inferred from what comes back and then VALIDATED by re-evaluating the inferred table on every probe
+# (anything the model's table form cannot express -> Unsupported).  The ast recognisers above are cross-checks only.
+
+CODEC_ORDER = ["Gzip", "Bz2", "Lz4", "Zstd"]
+STD_SIG = {"Gzip": b"\x1f\x8b", "Bz2": b"BZh", "Lz4": b"\x04\x22\x4d\x18", "Zstd": b"\x28\xb5\x2f\xfd"}
+PAD = b"\xee" * 28
+
+
+class _flags:
+    """Temporarily set the HAS_* flags of flow.record.base (observation under every optional-module setting)."""
+
+    def __init__(self, mod, setting):
+        self.mod, self.setting = mod, setting
+
+    def __enter__(self):
+        self.saved = {n: getattr(self.mod, n) for n in FLAGS}
+        for n, v in self.setting.items():
+            setattr(self.mod, n, v)
+
+    def __exit__(self, *a):
+        for n, v in self.saved.items():
+            setattr(self.mod, n, v)
+
+
+def _wrapper_codec(fp, orig=None):
+    import bz2
+    import gzip
+    if fp is orig:
+        return "Plain"
+    tm = type(fp).__module__ or ""
+    if isinstance(fp, gzip.GzipFile):
+        return "Gzip"
+    if isinstance(fp, bz2.BZ2File):
+        return "Bz2"
+    if tm.startswith("lz4"):
+        return "Lz4"
+    if tm.startswith("zstandard"):
+        return "Zstd"
+    if isinstance(fp, (io.BufferedReader, io.BufferedWriter, io.BytesIO, io.FileIO, io.TextIOWrapper)):
+        return "Plain"
+    raise Unsupported("open_stream / open_path returned an object of unknown kind %s.%s" % (tm, type(fp).__name__))
+
+
+class _PeekLog(io.BytesIO):
+    """BytesIO with a logging peek()."""
+
+    def __init__(self, data):
+        super().__init__(data)
+        self.peeks = []
+
+    def peek(self, n=0):
+        self.peeks.append(n)
+        pos = self.tell()
+        d = self.read()
+        self.seek(pos)
+        return d
+
+
+def _flag_settings(live):
+    """all as installed; each available flag off alone; all off"""
+    out = [dict(live)]
+    for n in FLAGS:
+        if live[n]:
+            out.append(dict(live, **{n: False}))
+    out.append({n: False for n in FLAGS})
+    return out
+
+
+def _sniff_probes(magics):
+    probes = [b"", b"\x00", PAD, b"Obj\x01" + PAD]
+    for m in magics:
+        probes.append(m)
+        probes.append(m + PAD)
+        probes.append(b"\x00" + m + PAD)                 # not at offset 0
+        for k in range(1, len(m)):
+            probes.append(m[:k])                         # proper prefix, nothing after
+            probes.append(m[:k] + bytes([m[k] ^ 0xFF]) + PAD)
+        for i in range(len(m)):
+            for bit in range(8):
+                mm = bytearray(m)
+                mm[i] ^= 1 << bit
+                probes.append(bytes(mm) + PAD)
+        for m2 in magics:
+            if m2 != m:
+                probes.append(m + m2 + PAD)              # matches one magic, continues with another
+                k = min(len(m), len(m2))
+                probes.append(m[:k - 1] + m2[k - 1:] + PAD)
+    seen, uniq = set(), []
+    for b in probes:
+        if b not in seen:
+            seen.add(b)
+            uniq.append(b)
+    return uniq
+
+
+def _eval_sniff(chain, flags, bs):
+    for guard, k, m, c in chain:
+        if (guard is None or flags[guard]) and bs[:k] == m:
+            return c
+    return "Plain"
+
+
+INV_FLAGS = {v: k for k, v in FLAGS.items()}
+
+
+def observe_open_stream(mod):
+    """-> dict(chain=[(flag ctor|None, len, magic, codec)], peek=n, passthrough=bool) inferred from open_stream's behaviour."""
+    import itertools
+    live = {n: bool(getattr(mod, n)) for n in FLAGS}
+    cands = []
+    for name in ("GZIP_MAGIC", "BZ2_MAGIC", "LZ4_MAGIC", "ZSTD_MAGIC"):
+        v = getattr(mod, name, None)
+        if isinstance(v, bytes) and v and v not in cands:
+            cands.append(v)
+    for v in STD_SIG.values():
+        if v not in cands:
+            cands.append(v)
+
+    def run(bs, flags):
+        with _flags(mod, flags):
+            src = _PeekLog(bs)
+            try:
+                fp = mod.open_stream(src, "rb")
+            except Exception as e:  # noqa
+                raise Unsupported("open_stream raised %s on the probe %r" % (type(e).__name__, bs[:12]))
+            return _wrapper_codec(fp, src), src.peeks
+
+    # passthrough for writers
+    src = _PeekLog(STD_SIG["Gzip"] + PAD)
+    passthrough = mod.open_stream(src, "wb") is src and not src.peeks
+    # peek length
+    _, peeks = run(PAD, live)
+    if len(peeks) != 1:
+        raise Unsupported("open_stream peeks %d times into the stream" % len(peeks))
+    peek = peeks[0]
+    # one branch per codec: the shortest prefix of a candidate magic that is still recognised
+    branches = {}
+    for m in cands:
+        c, _ = run(m + PAD, live)
+        if c == "Plain":
+            continue
+        k = len(m)
+        for j in range(1, len(m)):
+            if run(m[:j] + bytes([m[j] ^ 0xFF]) + PAD, live)[0] == c:
+                k = j
+                break
+        guards = [n for n in FLAGS if live[n] and run(m + PAD, dict(live, **{n: False}))[0] != c]
+        if len(guards) > 1:
+            raise Unsupported("open_stream: recognising %s depends on several flags %s" % (c, guards))
+        br = (FLAGS[guards[0]] if guards else None, k, m[:k], c)
+        if c in branches and branches[c] != br:
+            raise Unsupported("open_stream: two different signatures lead to %s: %r and %r" % (c, branches[c][2], br[2]))
+        branches[c] = br
+    for c in CODEC_ORDER:                       # a codec whose module is missing here cannot be observed: not expressible
+        if c not in branches and not all(live.values()):
+            raise Unsupported("open_stream: %s is not recognised in this installation (optional module missing?)" % c)
+    probes = _sniff_probes(cands)
+    settings = _flag_settings(live)
+    observed = {(i, bs): run(bs, fl)[0] for i, fl in enumerate(settings) for bs in probes}
+    blist = [branches[c] for c in CODEC_ORDER if c in branches]
+    for perm in itertools.permutations(blist):
+        named = [(INV_FLAGS.get(g), k, m, c) for g, k, m, c in perm]
+        if all(_eval_sniff(named, fl, bs) == observed[(i, bs)] for i, fl in enumerate(settings) for bs in probes):
+            return dict(chain=list(perm), peek=peek, passthrough=passthrough, probes=len(observed))
+    bad = next(((fl, bs) for i, fl in enumerate(settings) for bs in probes
+                if _eval_sniff([(INV_FLAGS.get(g), k, m, c) for g, k, m, c in blist], fl, bs) != observed[(i, bs)]), None)
+    raise Unsupported("open_stream's behaviour is not a chain of prefix tests: e.g. probe %r (flags off: %s) gives %s" % (
+        bad[1][:12], [n for n, v in bad[0].items() if not v], observed[(settings.index(bad[0]), bad[1])]))
+
+
+def observe_find_adapter(mod):
+    """-> dict(chain=[(flag ctor|None, test term, name)], peek=n) inferred from find_adapter_for_stream's behaviour."""
+    live = {n: bool(getattr(mod, n)) for n in FLAGS}
+    avro = getattr(mod, "AVRO_MAGIC", b"Obj")
+    rs = mod.RECORDSTREAM_MAGIC
+
+    def run(bs, flags):
+        with _flags(mod, flags):
+            src = _PeekLog(bs)
+            try:
+                _, name = mod.find_adapter_for_stream(src)
+            except Exception as e:  # noqa
+                raise Unsupported("find_adapter_for_stream raised %s on the probe %r" % (type(e).__name__, bs[:12]))
+            return name, src.peeks
+
+    _, peeks = run(PAD, live)
+    if len(peeks) != 1:
+        raise Unsupported("find_adapter_for_stream peeks %d times" % len(peeks))
+    peek = peeks[0]
+    branches = []
+    # "Obj"-like prefix test
+    name_a, _ = run(avro + PAD, live)
+    a_branch = None
+    if name_a is not None:
+        k = len(avro)
+        for j in range(1, len(avro)):
+            if run(avro[:j] + bytes([avro[j] ^ 0xFF]) + PAD, live)[0] == name_a:
+                k = j
+                break
+        guards = [n for n in FLAGS if live[n] and run(avro + PAD, dict(live, **{n: False}))[0] != name_a]
+        if len(guards) > 1:
+            raise Unsupported("find_adapter_for_stream: the Avro test depends on several flags")
+        a_branch = (FLAGS[guards[0]] if guards else None, ("prefix", k, avro[:k]), name_a)
+    # stream magic within a depth
+    hits = [o for o in range(0, 48) if run(b"\x23" * o + rs + PAD, live)[0] is not None]
+    s_branch = None
+    if hits:
+        name_s = run(b"\x23" * hits[0] + rs + PAD, live)[0]
+        if hits != list(range(0, hits[-1] + 1)):
+            raise Unsupported("find_adapter_for_stream finds the stream magic at offsets %s only (not an initial range)" % hits[:10])
+        guards = [n for n in FLAGS if live[n] and run(b"\x23" * hits[0] + rs + PAD, dict(live, **{n: False}))[0] != name_s]
+        if len(guards) > 1:
+            raise Unsupported("find_adapter_for_stream: the stream test depends on several flags")
+        # the whole magic is needed?
+        if run(rs[:-1] + bytes([rs[-1] ^ 0xFF]) + PAD, live)[0] is not None or run(bytes([rs[0] ^ 0xFF]) + rs[1:] + PAD, live)[0] is not None:
+            raise Unsupported("find_adapter_for_stream accepts an altered stream magic")
+        s_branch = (FLAGS[guards[0]] if guards else None, ("within", hits[-1] + len(rs), rs), name_s)
+    both = run(avro + b"\x23" * 2 + rs + PAD, live)[0] if (a_branch and s_branch) else None
+    if a_branch and s_branch:
+        branches = [a_branch, s_branch] if both == a_branch[2] else [s_branch, a_branch]
+    else:
+        branches = [b for b in (a_branch, s_branch) if b]
+
+    def ev(flags, bs):
+        for g, t, name in branches:
+            if g is not None and not flags[INV_FLAGS[g]]:
+                continue
+            if (t[0] == "prefix" and bs[:t[1]] == t[2]) or (t[0] == "within" and t[2] in bs[:t[1]]):
+                return name
+        return None
+
+    probes = [b"", PAD, avro, avro + PAD, avro[:-1], b"\x00" + avro + PAD, rs, rs + PAD, avro + rs + PAD, rs[:-1] + PAD] + \
+        [b"\x23" * o + rs + PAD for o in range(0, 48, 1)] + [b"\x23" * o + rs for o in range(0, 10)]
+    for i in range(len(avro)):
+        for bit in range(8):
+            mm = bytearray(avro)
+            mm[i] ^= 1 << bit
+            probes.append(bytes(mm) + PAD)
+    n = 0
+    for fl in _flag_settings(live):
+        for bs in probes:
+            n += 1
+            if ev(fl, bs) != run(bs, fl)[0]:
+                raise Unsupported("find_adapter_for_stream's behaviour is not `prefix test, then magic within a depth`: probe %r (flags off: %s) gives %r" % (
+                    bs[:24], [x for x, v in fl.items() if not v], run(bs, fl)[0]))
+    chain = []
+    for g, t, name in branches:
+        term = "(CPrefix %s %s)" % (cnat(t[1]), cbytes(t[2])) if t[0] == "prefix" else "(CWithin %s %s)" % (cnat(t[1]), cbytes(t[2]))
+        chain.append((g, term, name))
+    return dict(chain=chain, peek=peek, probes=n)
+
+
+def _string_constants(mod, fns):
+    """String literals in the source of the given functions and of the private module-level helpers they call (one level)."""
+    out = set()
+    seen = set()
+    todo = list(fns)
+    depth = {f: 0 for f in fns}
+    while todo:
+        fn = todo.pop()
+        if fn in seen:
+            continue
+        seen.add(fn)
+        try:
+            node = ast.parse(textwrap.dedent(inspect.getsource(fn)))
+        except (OSError, TypeError, SyntaxError):
+            continue
+        for n in ast.walk(node):
+            if isinstance(n, ast.Constant) and isinstance(n.value, str):
+                out.add(n.value)
+            if isinstance(n, ast.Tuple):
+                pass
+            if isinstance(n, ast.Call) and isinstance(n.func, ast.Name) and depth[fn] < 1:
+                callee = vars(mod).get(n.func.id)
+                if inspect.isfunction(callee) and callee.__module__ == mod.__name__ and callee not in depth:
+                    depth[callee] = depth[fn] + 1
+                    todo.append(callee)
+    return out
+
+
+def helper_functions(mod, fn):
+    """fn plus the module-level functions of the same module it calls (one level)."""
+    out = [fn]
+    try:
+        node = ast.parse(textwrap.dedent(inspect.getsource(fn)))
+    except (OSError, TypeError, SyntaxError):
+        return out
+    for n in ast.walk(node):
+        if isinstance(n, ast.Call) and isinstance(n.func, ast.Name):
+            callee = vars(mod).get(n.func.id)
+            if inspect.isfunction(callee) and callee.__module__ == mod.__name__ and callee not in out:
+                out.append(callee)
+    return out
+
+
+def observe_open_path(mod):
+    """-> dict(chain=[(suffixes, flag ctor|None, codec)], fallback=(files, stdin)) inferred from open_path's behaviour on
+    really opened temp files named with every candidate extension, for reading and for writing."""
+    import gzip
+    import shutil
+    import sys
+    import tempfile
+    live = {n: bool(getattr(mod, n)) for n in FLAGS}
+    cands = {".gz", ".bz2", ".lz4", ".zst", ".zstd", ".gzip", ".bz", ".lz", ".zs", ".z", ".xz", ".GZ", ".Zst", ".zstdx", ".gz2", ".records", ".avro", ".tgz"}
+    cands |= {c for c in _string_constants(mod, [mod.open_path]) if c.startswith(".") and 1 < len(c) <= 8 and "/" not in c and " " not in c}
+    d = tempfile.mkdtemp(prefix="c11obs.")
+
+    def run(name, mode, flags, content=b"plain"):
+        p = d + "/" + name
+        if mode == "rb":
+            with open(p, "wb") as f:
+                f.write(content)
+        with _flags(mod, flags):
+            try:
+                fp = mod.open_path(p, mode)
+            except RuntimeError as e:
+                return ("unavailable", str(e))
+            except Exception as e:  # noqa
+                raise Unsupported("open_path(%r, %r) raised %s" % (name, mode, type(e).__name__))
+        try:
+            return ("codec", _wrapper_codec(fp))
+        finally:
+            try:
+                fp.close()
+            except Exception:  # noqa
+                pass
+
+    try:
+        per_codec = {}
+        for s in sorted(cands):
+            w = run("Q" + s, "wb", live)
+            r = run("Q" + s, "rb", live)
+            if w != r:
+                raise Unsupported("open_path treats the extension %r differently for writing (%s) and reading (%s)" % (s, w, r))
+            if w[0] != "codec":
+                raise Unsupported("open_path(%r) is unavailable although all flags are as installed: %s" % ("Q" + s, w[1]))
+            c = w[1]
+            if c == "Plain":
+                continue
+            k = len(s)                       # the shortest tail of s that still selects c
+            for j in range(1, len(s)):
+                if run("Q" + s[-j:], "wb", live) == w:
+                    k = j
+                    break
+            per_codec.setdefault(c, [])
+            if s[-k:] not in per_codec[c]:
+                per_codec[c].append(s[-k:])
+        chain = []
+        for c in CODEC_ORDER:
+            if c not in per_codec:
+                continue
+            sufs = sorted(per_codec[c], key=lambda x: (-len(x), x))
+            guards = []
+            for n in FLAGS:
+                if live[n]:
+                    res = {run("Q" + s, mode, dict(live, **{n: False}))[0] for s in sufs for mode in ("wb", "rb")}
+                    if res == {"unavailable"}:
+                        guards.append(n)
+                    elif res != {"codec"}:
+                        raise Unsupported("open_path: flag %s affects the extensions %s inconsistently" % (n, sufs))
+            if len(guards) > 1:
+                raise Unsupported("open_path: %s depends on several flags %s" % (c, guards))
+            chain.append((sufs, FLAGS[guards[0]] if guards else None, c))
+
+        def ev(flags, name):
+            for sufs, g, c in chain:
+                if any(name.endswith(s) for s in sufs):
+                    return ("codec", c) if (g is None or flags[INV_FLAGS[g]]) else ("unavailable",)
+            return ("codec", "Plain")
+
+        names = ["Q" + s for s in sorted(cands)] + ["a" + s + ".tmp" for s in sorted(cands)] + ["a.b" + s for s in (".gz", ".zst")] + ["noext", "a."]
+        n = 0
+        for fl in _flag_settings(live):
+            for name in names:
+                for mode in ("wb", "rb"):
+                    n += 1
+                    got = run(name, mode, fl)
+                    if got[:1] + got[1:2] != ev(fl, name) and not (got[0] == "unavailable" and ev(fl, name) == ("unavailable",)):
+                        raise Unsupported("open_path's behaviour is not an extension table: %r (%s, flags off: %s) gives %s" % (
+                            name, mode, [x for x, v in fl.items() if not v], got))
+        # fall-back: a plain-named file / standard input whose CONTENT is compressed, opened for binary reading
+        gz = gzip.compress(b"x" * 40)
+        files = run("neutralname", "rb", live, content=gz) == ("codec", "Gzip")
+        text_untouched = True
+
+        class _FakeStdin:
+            def __init__(self, data):
+                self.buffer = io.BufferedReader(io.BytesIO(data))
+
+        saved = sys.stdin
+        sys.stdin = _FakeStdin(gz)
+        try:
+            stdin = _wrapper_codec(mod.open_path("-", "rb")) == "Gzip"
+        except Exception as e:  # noqa
+            raise Unsupported("open_path('-', 'rb') raised %s" % type(e).__name__)
+        finally:
+            sys.stdin = saved
+        return dict(chain=chain, fallback=(files, stdin), probes=n)
+    finally:
+        shutil.rmtree(d, ignore_errors=True)
+
+
+def observe_readheader():
+    """-> (bytes read, test kind, magic) inferred from RecordStreamReader's behaviour."""
+    import flow.record.stream as st
+    rs = st.RECORDSTREAM_MAGIC
+
+    class Log(io.BytesIO):
+        def __init__(self, data):
+            super().__init__(data)
+            self.reads = []
+
+        def read(self, n=-1):
+            self.reads.append(n)
+            return super().read(n)
+
+    def accepts(bs):
+        fp = Log(bs)
+        try:
+            st.RecordStreamReader(fp)
+            return True, fp.reads
+        except IOError:
+            return False, fp.reads
+
+    _, reads = accepts(b"\x23" * 6 + rs + b"\x00" * 40)
+    if len(reads) != 1 or reads[0] is None or reads[0] < 0:
+        raise Unsupported("RecordStreamReader reads the header with %r" % (reads,))
+    n = reads[0]
+    probes = [b"\x23" * o + rs + b"\x00" * 40 for o in range(0, n + 4)] + [b"\x23" * o + rs for o in range(0, n + 2)] + \
+             [b"", b"\x00" * 64, rs[:-1] + b"\x00" * 40, b"\x23" * 6 + rs[:-1] + bytes([rs[-1] ^ 1]) + b"\x00" * 8, b"\x23" * 6 + bytes([rs[0] ^ 1]) + rs[1:]]
+    got = {bs: accepts(bs)[0] for bs in probes}
+    if all(got[bs] == bs[:n].endswith(rs) for bs in probes):
+        return n, "HEndsWith", rs, len(probes)
+    if all(got[bs] == (rs in bs[:n]) for bs in probes):
+        return n, "HContains", rs, len(probes)
+    bad = next(bs for bs in probes if got[bs] != bs[:n].endswith(rs))
+    raise Unsupported("RecordStreamReader's header test is neither `ends with the magic` nor `contains the magic`: %r -> %s" % (bad[:24], got[bad]))
+
+
+def observe_adapter_table(mod):
+    """-> (table ext -> adapter, default) from RecordAdapter's dispatch (the adapter module is not really imported)."""
+    class Rec:
+        def __init__(self, name):
+            self.name = name
+
+        def __getattr__(self, cls):
+            return lambda *a, **k: None
+
+    seen = []
+
+    class Imp:
+        @staticmethod
+        def import_module(name):
+            seen.append(name)
+            return Rec(name)
+
+    cands = {".avro", ".json", ".jsonl", ".csv", ".records", ".gz", ".txt", ".sqlite", ".db", ".xml", ".line", ".rec", ".zst", ".parquet", ".duckdb"}
+    cands |= {c for c in _string_constants(mod, [mod.RecordAdapter]) if c.startswith(".") and 1 < len(c) <= 10 and "/" not in c and " " not in c}
+    saved = mod.importlib
+    mod.importlib = Imp
+    try:
+        def adapter(name):
+            del seen[:]
+            mod.RecordAdapter(name, out=True)
+            pref = "flow.record.adapter."
+            if len(seen) != 1 or not seen[0].startswith(pref):
+                raise Unsupported("RecordAdapter(%r) imports %r" % (name, seen))
+            return seen[0][len(pref):]
+        default = adapter("Qnoextension")
+        if adapter("Q.c11unknownext") != default:
+            raise Unsupported("RecordAdapter has no single default adapter")
+        table = {}
+        for c in sorted(cands):
+            a = adapter("Q" + c)
+            if a != default:
+                table[c] = a
+        return table, default
+    finally:
+        mod.importlib = saved
+
+
+def observe_flag_deps(mod):
+    """For each HAS_* flag the modules whose (un)importability decides it, observed in fresh child interpreters in which one
+    optional module at a time cannot be imported.  Cached on the text of base.py (the children cost ~0.5 s)."""
+    import hashlib
+    import json
+    import pathlib
+    import subprocess
+    import sys
+    src = pathlib.Path(mod.__file__).read_bytes()
+    key = hashlib.sha1(src + sys.version.encode()).hexdigest()
+    cache = GEN / ".c11_flagdeps.json"
+    try:
+        c = json.loads(cache.read_text())
+        if c.get("key") == key:
+            return c["deps"]
+    except Exception:  # noqa
+        pass
+    repo = str(pathlib.Path(mod.__file__).parents[2])
+    child = (
+        "import sys, json, importlib\n"
+        "block = [b for b in sys.argv[2].split(',') if b]\n"
+        "for b in block: sys.modules[b] = None\n"
+        "sys.path.insert(0, sys.argv[1])\n"
+        "imp = {}\n"
+        "for name in %r:\n"
+        "    try:\n        importlib.import_module(name); imp[name] = True\n    except ImportError:\n        imp[name] = False\n"
+        "import flow.record.base as b\n"
+        "print('@@' + json.dumps(dict(importable=imp, flags={f: getattr(b, f) for f in %r})))\n" % (sorted(set(FLAG_MODULE.values())), sorted(FLAGS)))
+    blocks = {"lz4.frame": "lz4,lz4.frame", "zstandard": "zstandard", "bz2": "bz2,_bz2", "fastavro": "fastavro"}
+    procs = {m: subprocess.Popen([sys.executable, "-c", child, repo, b], stdout=subprocess.PIPE, stderr=subprocess.STDOUT, text=True)
+             for m, b in blocks.items()}
+    runs = {}
+    for m, pr in procs.items():
+        out, _ = pr.communicate(timeout=120)
+        line = [ln for ln in out.splitlines() if ln.startswith("@@")]
+        if not line:
+            raise Unsupported("flag observation child (without %s) failed: %s" % (m, out[-200:]))
+        runs[m] = json.loads(line[0][2:])
+    deps = {}
+    for f, own in FLAG_MODULE.items():
+        d = []
+        # own module: the flag must follow it
+        if not runs[own]["importable"][own] and not runs[own]["flags"][f]:
+            d.append(own)
+        for m, r in runs.items():
+            if m != own and r["importable"][own] and not r["flags"][f]:
+                d.append(m)          # another module's absence switches this flag off although its own module is there
+        deps[f] = d
+    try:
+        cache.write_text(json.dumps(dict(key=key, deps=deps)))
+    except Exception:  # noqa
+        pass
+    return deps
+
+
+def shared_codec_state(mod):
+    """Module-level (de)compressor INSTANCES used anywhere in open_stream / open_path or the private helpers they call (one
+    level): [(function, name)].  Not observable from one call, hence read from the source -- independent of its shape."""
+    out = []
+    for top in (mod.open_stream, mod.open_path):
+        for fn in helper_functions(mod, top):
+            try:
+                node = ast.parse(textwrap.dedent(inspect.getsource(fn)))
+            except (OSError, TypeError, SyntaxError):
+                raise Unsupported("no source for %s" % fn.__name__)
+            for name, codec, role in _shared_codec_objects(mod, [node]):
+                if (fn.__name__, name) not in out:
+                    out.append((fn.__name__, name))
+    return out
+
+
+def _cross_check(what, recogniser, same, notes):
+    """Run an ast recogniser as a cross-check of an observed fact: unrecognised spelling -> note; recognised and
+    contradicting the observation -> fail closed."""
+    try:
+        rec = recogniser()
+    except Unsupported as e:
+        notes.append("%s: source shape not recognised (%s) -- observed behaviour used" % (what, str(e)[:160]))
+        return
+    except Exception as e:  # noqa
+        notes.append("%s: recogniser failed (%s: %s) -- observed behaviour used" % (what, type(e).__name__, str(e)[:120]))
+        return
+    bad = same(rec)
+    if bad:
+        raise Unsupported("%s: the source as recognised contradicts the observed behaviour: %s" % (what, bad))
+
+
 def header_frame():
     from flow.record import RecordOutput
     buf = io.BytesIO()
@@ -628,13 +1300,34 @@ def gen_detect():
         if not isinstance(getattr(base, name, None), bool):
             raise Unsupported("flow.record.base.%s is not a bool" % name)
     del SHARED[:]
-    os_ = open_stream_facts(base)
-    op_ = open_path_facts(base)
-    fa_ = find_adapter_facts(base)
-    table, default = adapter_table_facts(base)
+    notes = []
+    # ---- facts from OBSERVED behaviour; the ast recognisers only cross-check them
+    os_ = observe_open_stream(base)
+    _cross_check("open_stream", lambda: open_stream_facts(base),
+                 lambda r: None if (set(r["chain"]) == set(os_["chain"]) and r["peek"] == os_["peek"] and r["passthrough"] == os_["passthrough"])
+                 else "recognised %r / peek %r, observed %r / peek %r" % (r["chain"], r["peek"], os_["chain"], os_["peek"]), notes)
+    op_ = observe_open_path(base)
+    canon = lambda ch: {(frozenset(sufs), g, c) for sufs, g, c in ch}  # noqa: E731
+    _cross_check("open_path", lambda: open_path_facts(base),
+                 lambda r: None if (canon(r["chain"]) == canon(op_["chain"]) and tuple(r["fallback"]) == tuple(op_["fallback"]))
+                 else "recognised %r fall-back %r, observed %r fall-back %r" % (r["chain"], r["fallback"], op_["chain"], op_["fallback"]), notes)
+    fa_ = observe_find_adapter(base)
+    _cross_check("find_adapter_for_stream", lambda: find_adapter_facts(base),
+                 lambda r: None if (list(r["chain"]) == list(fa_["chain"]) and r["peek"] == fa_["peek"])
+                 else "recognised %r, observed %r" % (r["chain"], fa_["chain"]), notes)
+    table, default = observe_adapter_table(base)
+    _cross_check("RecordAdapter.ext_to_adapter", lambda: adapter_table_facts(base),
+                 lambda r: None if ({k: v for k, v in r[0].items() if v != r[1]} == table and r[1] == default)
+                 else "recognised %r default %r, observed %r default %r" % (r[0], r[1], table, default), notes)
     frame = header_frame()
-    hlen, hkind, hmagic = readheader_facts()
-    deps = import_block_facts(base)
+    hlen, hkind, hmagic, hprobes = observe_readheader()
+    _cross_check("RecordStreamReader.readheader", readheader_facts,
+                 lambda r: None if tuple(r) == (hlen, hkind, hmagic) else "recognised %r, observed %r" % (r, (hlen, hkind, hmagic)), notes)
+    deps = observe_flag_deps(base)
+    _cross_check("HAS_* import block", lambda: import_block_facts(base),
+                 lambda r: None if all(set(r[f]) == set(deps[f]) for f in FLAGS) else "recognised %r, observed %r" % (r, deps), notes)
+    del SHARED[:]
+    SHARED.extend(shared_codec_state(base))      # not observable from single calls: read from the source, shape-independent
 
     out = HEADER
     out += "From Coq Require Import List Bool String.\nFrom Coq Require Import Strings.Byte.\nImport ListNotations.\n"
@@ -678,6 +1371,11 @@ def gen_detect():
     out += "     f_cont_chain := cont_chain; f_cont_peek := %s;\n" % cnat(fa_["peek"])
     out += "     f_ext_to_adapter := ext_to_adapter; f_default_adapter := %s;\n" % cbytes(default.encode())
     out += "     f_rs_magic := RECORDSTREAM_MAGIC; f_header_frame := stream_header_frame; f_env := has_flags |}.\n"
+    out += "\n(* facts derived from observed behaviour: open_stream %d probes, open_path %d, find_adapter_for_stream %d, readheader %d;\n" % (
+        os_["probes"], op_["probes"], fa_["probes"], hprobes)
+    out += "   HAS_* dependencies from child interpreters; ast recognisers used as cross-checks *)\n"
+    for n in notes:
+        out += "(* note: %s *)\n" % n.replace("*)", "* )").replace("(*", "( *")
     write_if_changed(GEN / "Gen_detect.v", out)
 
 
